@@ -81,6 +81,7 @@ def table_grader_class():
             return super(TableGrader, self).schema_config.extend({
                 Required('salt', default=0): int,
                 Required('palette', default=(0, 1)): tuple,
+                Required('fine', default=0): int,
                 Required('sib', default=False): bool,
                 Required('gid', default=0): int,
             })
@@ -93,7 +94,16 @@ def table_grader_class():
             h = zlib.crc32(('%d|%s|%s|%s' % (cfg['salt'], expect, student_input, sibkey)).encode())
             if expect == student_input and not cfg['sib']:
                 return 1, h
-            return cfg['palette'][h % len(cfg['palette'])], h
+            base = cfg['palette'][h % len(cfg['palette'])]
+            fine = cfg['fine']
+            if fine == 1:                      # credits k/1000
+                return (h % 1001) / 1000.0, h
+            if fine == 2:                      # arbitrary floats in [0, 1)
+                return ((h * 2654435761) % 2 ** 32) / 2.0 ** 32, h
+            if fine == 3:                      # near-ties: a coarse credit moved by 0, +-eps, +-2 eps, eps = 1e-3 .. 1e-6
+                eps = 10.0 ** -(3 + (h >> 5) % 4)
+                return min(1.0, max(0.0, base + ((h >> 9) % 5 - 2) * eps)), h
+            return base, h
 
         def check_response(self, answer, student_input, **kwargs):
             c, h = self.credit(answer['expect'], student_input, kwargs.get('siblings'))
@@ -113,14 +123,15 @@ def table_grader_class():
 # case specification: grader tree + answer tree
 # ------------------------------------------------------------------------------------------------
 class Item(object):
-    def __init__(self, gid, kind, sib, salt, palette, slg_opts=None):
+    def __init__(self, gid, kind, sib, salt, palette, slg_opts=None, fine=0):
         self.gid, self.kind, self.sib, self.salt, self.palette = gid, kind, sib, salt, palette
+        self.fine = fine
         self.slg_opts = slg_opts or {}
         self.grader = None
 
     def describe(self):
         return {'item': self.gid, 'kind': self.kind, 'sib': self.sib, 'salt': self.salt,
-                'palette': list(self.palette), 'slg': self.slg_opts}
+                'palette': list(self.palette), 'slg': self.slg_opts, 'fine': self.fine}
 
 
 class LNode(object):
@@ -150,6 +161,7 @@ class Gen(object):
     def __init__(self, rng, palette, allow_slg=True, allow_sib=True, nested_partial=None):
         self.rng, self.palette, self.allow_slg, self.allow_sib = rng, tuple(palette), allow_slg, allow_sib
         self.nested_partial = nested_partial       # partial_credit of nested ListGraders (None: random)
+        self.fine = 0                              # fine-grained credit mode of the table graders (0: palette only)
         self.gid = 0
         self.aid = 0
         self.salt = rng.randrange(10**6)
@@ -166,7 +178,7 @@ class Gen(object):
         opts = {}
         if kind == 'slg':
             opts = {'ordered': r.random() < 0.5, 'partial_credit': r.random() < 0.7}
-        return Item(self.next_gid(), kind, sib, self.salt + self.gid, self.palette, opts)
+        return Item(self.next_gid(), kind, sib, self.salt + self.gid, self.palette, opts, self.fine)
 
     def lnode(self, m, depth, force=None):
         """a ListGrader spec for m >= 2 inputs"""
@@ -269,7 +281,7 @@ def build(node, answers_cfg=None):
     from mitxgraders import ListGrader, SingleListGrader
     if isinstance(node, Item):
         TG = table_grader_class()
-        tg = TG(salt=node.salt, palette=tuple(node.palette), sib=node.sib, gid=node.gid)
+        tg = TG(salt=node.salt, palette=tuple(node.palette), sib=node.sib, gid=node.gid, fine=node.fine)
         if node.kind == 'slg':
             g = SingleListGrader(subgrader=tg, **node.slg_opts)
         else:
@@ -852,8 +864,10 @@ def history_of(rng, case, m):
 
 
 def make_case(rng, palette_name, m=None, force=None, n_alts=None, allow_slg=True, nested_partial=None):
-    palette = {'exact': EXACT, 'ties': TIES, 'rounded': ROUNDED}[palette_name]
+    palette = {'exact': EXACT, 'ties': TIES, 'rounded': ROUNDED, 'fine': TIES}[palette_name]
     gen = Gen(rng, palette, allow_slg=allow_slg, nested_partial=nested_partial)
+    if palette_name == 'fine':              # credits k/1000, arbitrary floats, or near-ties around coarse credits
+        gen.fine = rng.choice([1, 2, 3, 3])
     m = m or rng.choice([2, 2, 3, 3, 4, 4, 5, 6, 6, 7, 8])
     top = gen.lnode(m, 0, force)
     n_alts = n_alts or rng.choice([1, 1, 2, 3])
@@ -926,7 +940,7 @@ class Runner(object):
             return status, out
         if case.rec.problems:
             res.corr_errors.append(('c05-recorder', '; '.join(case.rec.problems[:3])))
-        exact_entries = case.palette_name != 'rounded' and float_exact(case)
+        exact_entries = case.palette_name not in ('rounded', 'fine') and float_exact(case)
         term = case_term(case, inputs, status, out)
         if exact_entries:
             self.terms_exact.append(term)
@@ -1011,7 +1025,7 @@ def run(ctx):
     # 1. random trees x random inputs (exact / tie-heavy / rounded credit tables)
     n_cases = 2500 if thorough else (700 if big else 250)
     for i in range(n_cases):
-        pal = ('exact', 'ties', 'rounded')[i % 3]
+        pal = 'fine' if i % 7 == 6 else ('exact', 'ties', 'rounded')[i % 3]
         case, m = make_case(rng, pal)
         for _ in range(2):
             runner.one(case, gen_inputs(rng, case, m, True))
@@ -1049,6 +1063,19 @@ def run(ctx):
             xs = mixed_inputs(rng, case.top, answers, m, cross=(0.2, 0.35, 0.5)[k % 3]) or gen_inputs(rng, case, m, False)
             runner.one(case, xs)
         runner.bump('nested_zeroing_cases')
+        case.rec.unwrap()
+
+    # 1d. arbitrary credit matrices with fine-grained credits (k/1000, arbitrary floats, near-ties: assignments whose
+    #     totals differ by 1e-3 .. 1e-6): the reported assignment must still be the maximal one (oracle tolerance 1e-9)
+    n_fine = 400 if thorough else (150 if big else 90)
+    for i in range(n_fine):
+        grouped = (i % 6 == 5)
+        case, m = make_case(rng, 'fine', m=rng.choice([4, 6] if grouped else [2, 2, 3, 3, 4, 5]),
+                            force={'ordered': False, 'grouped': grouped, 'partial': True},
+                            n_alts=rng.choice([1, 1, 2]), allow_slg=False, nested_partial=True)
+        for _ in range(4):
+            runner.one(case, gen_inputs(rng, case, m, False))
+        runner.bump('fine_credit_cases')
         case.rec.unwrap()
 
     # 2. all permutations of an input list (n <= 4 quick, n <= 6 thorough), unordered and ordered, flat
@@ -1108,7 +1135,7 @@ def rebuild(w):
     """re-create the grader of a witness from its description"""
     def node_of(d):
         if 'item' in d:
-            return Item(d['item'], d['kind'], d['sib'], d['salt'], tuple(d['palette']), d['slg'])
+            return Item(d['item'], d['kind'], d['sib'], d['salt'], tuple(d['palette']), d['slg'], d.get('fine', 0))
         return LNode(d['list'], d['ordered'], d['partial_credit'], d['sublist'], [node_of(s) for s in d['subs']], d['grouping'])
     top = node_of(w['grader'])
     answers = ast.literal_eval(w['answers'])      # a Python literal written by this module
